@@ -318,7 +318,7 @@ def oracle_entry_points(ctx, sc, mod, src, cls_name, v, conforming_kind):
     outs = {k: res_key(L.call(f)) for k, f in eps.items()}
     ctx.count(("ep-pack", sc.sid, cls_name, repr(v)), n=len(outs))
     ctx.hist("oracle_kind", "pack:" + conforming_kind)
-    compat = sc.dialect is None or all(k.by_alias is None or k.by_alias == sc.dialect for k in sc.classes)
+    compat = sc.dialect in (None, 'unset') or all(k.by_alias is None or k.by_alias == sc.dialect for k in sc.classes)
     names = list(outs)
     ref = names[0]
     for k in names[1:]:
@@ -485,7 +485,8 @@ def creation_src(kind, sc, cls_name, n, rng):
         return f"_d{n} = BasicDecoder({cls_name}); _dd{n} = BasicDecoder(List[{o}])"
     cfg = ""
     if sc.dialect is not None:
-        cfg = "\n    class Config(BaseConfig):\n        code_generation_options = [ADD_DIALECT_SUPPORT]\n        serialize_by_alias = True"
+        cfg = ("\n    class Config(BaseConfig):\n        code_generation_options = [ADD_DIALECT_SUPPORT]\n"
+               f"        serialize_by_alias = {sc.dialect if isinstance(sc.dialect, bool) else True}")
     if kind == "subclass-mixin":
         base = cls_name if c.mixin else f"{cls_name}, DataClassDictMixin"
         return f"@dataclass\nclass _S{n}({base}):\n    extra{n}: int = 0{cfg}"
@@ -538,6 +539,14 @@ def oracle_frame(ctx, sc, src, vals_by_root, steps):
             except Exception as e:   # a creation that mashumaro rejects is not an operation of the history
                 ctx.hist("frame_creation", "rejected:" + kind)
                 continue
+            if kind in ("subclass-mixin", "subclass-with-field"):
+                bad = fresh_subclass_agrees(ctx, sc, mod, cn, n, Dl, kw, vals_by_root)
+                if bad:
+                    ctx.fail(f"fresh subclass _S{n}({cn}) disagrees through its entry points: {bad}",
+                             {"entry": "frame-fresh-subclass", "source": src, "class": cn, "dialect": sc.dialect,
+                              "creations": list(log), "observed": bad, "expected": "to_dict == BasicEncoder(S).encode"},
+                             {"kind": "frame-fresh-subclass"})
+                    return
             after = [res_key(L.call(p[1])) for p in probes]
             ctx.count(("frame", sc.sid, n, kind), n=len(probes))
             for p, b, a in zip(probes, before, after):
@@ -558,27 +567,58 @@ def oracle_frame(ctx, sc, src, vals_by_root, steps):
         L.unload_module(mod)
 
 
-def has_plain_strict_sub(sc, t, v) -> bool:
+def fresh_subclass_agrees(ctx, sc, mod, cn, n, Dl, kw, vals_by_root):
+    """the subclass just created, instantiated from an existing exact value of its base, must give the
+    same result through its mixin method (called BEFORE and AFTER the base's) and through a codec"""
+    import dataclasses as dc
+    from mashumaro.codecs.basic import BasicEncoder
+    S = mod.__dict__.get(f"_S{n}")
+    base = getattr(mod, cn)
+    compat = sc.dialect in (None, "unset") or all(k.by_alias is None or k.by_alias == sc.dialect for k in sc.classes)
+    if S is None or not compat:
+        return None
+    for i, vals in vals_by_root.items():
+        if sc.roots[i] != ("data", cn):
+            continue
+        for v in vals:
+            if v[0] != "obj" or v[1] != cn or has_plain_strict_sub(sc, sc.roots[i], v, plain_only=False):
+                continue
+            o = L.build(mod, v)
+            s_inst = S(**{f.name: getattr(o, f.name) for f in dc.fields(o)})
+            a = res_key(L.call(lambda: s_inst.to_dict(dialect=Dl) if Dl else s_inst.to_dict()))
+            b = res_key(L.call(lambda: BasicEncoder(S, **kw).encode(s_inst)))
+            c = res_key(L.call(lambda: o.to_dict(dialect=Dl) if Dl else o.to_dict())) if sc.cls(cn).mixin else None
+            d = res_key(L.call(lambda: BasicEncoder(base, **kw).encode(o)))
+            ctx.count(("fresh-sub", sc.sid, cn, n), n=4)
+            if a != b:
+                return f"_S{n}.to_dict = {show(a)} but BasicEncoder(_S{n}).encode = {show(b)}"
+            if c is not None and c != d:
+                return f"after calling the subclass: {cn}.to_dict = {show(c)} but BasicEncoder({cn}).encode = {show(d)}"
+            return None
+    return None
+
+
+def has_plain_strict_sub(sc, t, v, plain_only=True) -> bool:
     """does the value hold, at a dataclass position annotated c, an instance of a strict subclass of c
-    that is a plain (non-mixin) dataclass?"""
+    (that is a plain, non-mixin dataclass when plain_only)?"""
     k = t[0]
     if k in ("list",) and v[0] in ("list", "tuple"):
-        return any(has_plain_strict_sub(sc, t[1], x) for x in v[1])
+        return any(has_plain_strict_sub(sc, t[1], x, plain_only) for x in v[1])
     if k == "dict" and v[0] == "dict":
-        return any(has_plain_strict_sub(sc, t[1], x) for _, x in v[1])
+        return any(has_plain_strict_sub(sc, t[1], x, plain_only) for _, x in v[1])
     if k == "tuple" and v[0] in ("list", "tuple"):
-        return any(has_plain_strict_sub(sc, tt, x) for tt, x in zip(t[1], v[1]))
+        return any(has_plain_strict_sub(sc, tt, x, plain_only) for tt, x in zip(t[1], v[1]))
     if k == "opt":
-        return v[0] != "none" and has_plain_strict_sub(sc, t[1], v)
+        return v[0] != "none" and has_plain_strict_sub(sc, t[1], v, plain_only)
     if k == "union":
-        return any(has_plain_strict_sub(sc, m, v) for m in t[1])
+        return any(has_plain_strict_sub(sc, m, v, plain_only) for m in t[1])
     if k == "data" and v[0] == "obj":
         rc = sc.cls(v[1])
-        if rc.is_strict_sub_of(t[1]) and not rc.mixin:
+        if rc.is_strict_sub_of(t[1]) and not (plain_only and rc.mixin):
             return True
         if v[1] == t[1] or rc.is_strict_sub_of(t[1]):
             ft = {fn: ty for (fn, _, ty) in rc.fields}
-            return any(has_plain_strict_sub(sc, ft[fn], x) for fn, x in v[2] if fn in ft)
+            return any(has_plain_strict_sub(sc, ft[fn], x, plain_only) for fn, x in v[2] if fn in ft)
     return False
 
 
@@ -679,7 +719,7 @@ def run(ctx: vlib.Ctx):
         if cm.info.get("junk"):
             continue            # not a conforming value: outside the property (kept for the correspondence only)
         sc = cm.sc
-        compat = sc.dialect is None or all(q.by_alias is None or q.by_alias == sc.dialect for q in sc.classes)
+        compat = sc.dialect in (None, 'unset') or all(q.by_alias is None or q.by_alias == sc.dialect for q in sc.classes)
         if not compat and not in_dom:
             ctx.hist("agree_domain", "skipped:dialect-priority")
             continue            # documented precedence of call dialect vs default dialect
